@@ -471,7 +471,6 @@ static cJSON *detach_path(cJSON *object, const unsigned char *path, const cJSON_
     child_pointer++;
 
     parent = get_item_from_pointer(object, (char*)parent_pointer, case_sensitive);
-    decode_pointer_inplace(child_pointer);
 
     if (cJSON_IsArray(parent))
     {
@@ -484,6 +483,8 @@ static cJSON *detach_path(cJSON *object, const unsigned char *path, const cJSON_
     }
     else if (cJSON_IsObject(parent))
     {
+        /* only member names are escaped, an array index like "1~1" must not turn into "1/" */
+        decode_pointer_inplace(child_pointer);
         if (case_sensitive)
         {
             detached_item = cJSON_DetachItemFromObjectCaseSensitive(parent, (char*)child_pointer);
@@ -1031,7 +1032,6 @@ static int apply_patch(cJSON *object, const cJSON *patch, const cJSON_bool case_
         child_pointer++;
     }
     parent = get_item_from_pointer(object, (char*)parent_pointer, case_sensitive);
-    decode_pointer_inplace(child_pointer);
 
     /* add, remove, replace, move, copy, test. */
     if ((parent == NULL) || (child_pointer == NULL))
@@ -1066,6 +1066,8 @@ static int apply_patch(cJSON *object, const cJSON *patch, const cJSON_bool case_
     }
     else if (cJSON_IsObject(parent))
     {
+        /* only member names are escaped, an array index like "1~1" must not turn into "1/" */
+        decode_pointer_inplace(child_pointer);
         if (case_sensitive)
         {
             cJSON_DeleteItemFromObjectCaseSensitive(parent, (char*)child_pointer);
